@@ -6,6 +6,7 @@
 package registrycontract_test
 
 import (
+	"bytes"
 	"context"
 	"encoding/hex"
 	"encoding/json"
@@ -16,6 +17,7 @@ import (
 	"math/big"
 	"math/rand"
 	"os"
+	"sort"
 	"strconv"
 	"strings"
 	"sync"
@@ -96,7 +98,26 @@ type c11In struct {
 	// ("receipt" with Status, "notfound": dropped, "never": nothing while the caller waits).
 	// Late: the client's own watcher gets the outcome before the registry starts to wait.
 	Late bool `json:"late,omitempty"`
+	// viawrite (early timing only): OTHER transactions of the same client (client.Send, own
+	// nonces) that are outstanding together with the stake / prepay transaction and are mined in
+	// the SAME block, so that one monitor check resolves all of them.  They are context: the
+	// expected outcome of the registry operation depends on Wait (its own receipt) alone.
+	// StakeFirst: the node fills in the answer for the stake / prepay transaction before the
+	// answers for the other transactions of the batch (otherwise after them).
+	Others     []c11Other `json:"others,omitempty"`
+	StakeFirst bool       `json:"stake_first,omitempty"`
 }
+
+// c11Other: Before = sent before the stake / prepay transaction (lower nonce), otherwise after it
+// (sent once the registry has its transaction out and starts to wait).  Status: receipt status
+// the chain holds for it; Drop: the chain holds no receipt (eth_getTransactionReceipt: not found).
+type c11Other struct {
+	Before bool   `json:"before,omitempty"`
+	Status uint64 `json:"status"`
+	Drop   bool   `json:"drop,omitempty"`
+}
+
+var c11OtherMarker = []byte("verif-other-")
 
 // ---- observation ------------------------------------------------------------------------------
 
@@ -793,6 +814,10 @@ type c11ViaClient struct {
 	limit  time.Duration
 	mu     sync.Mutex
 	waits  []c11Eff
+	// early timing with other outstanding transactions: called once the registry has its own
+	// transaction out and starts to wait; sends the remaining other transactions, registers a
+	// waiter for every other transaction and returns the signals "that waiter is registered"
+	others func() []<-chan struct{}
 }
 
 func (c *c11ViaClient) WaitForReceipt(ctx context.Context, h common.Hash) (*types.Receipt, error) {
@@ -826,10 +851,18 @@ func (c *c11ViaClient) WaitForReceipt(ctx context.Context, h common.Hash) (*type
 	// Positive synchronisation: EvmClient.WaitForReceipt registers its waiter with the monitor
 	// and only then evaluates ctx.Done() for its select; the context handed in reports that call.
 	sctx := &c11SignalCtx{Context: ctx, reached: make(chan struct{})}
+	var more []<-chan struct{}
+	if c.others != nil {
+		more = c.others()
+	}
 	go func() {
-		select {
-		case <-sctx.reached:
-		case <-time.After(c.limit):
+		// the block is mined only when every transaction of it has a registered waiter
+		fallback := time.After(c.limit)
+		for _, ch := range append([]<-chan struct{}{sctx.reached}, more...) {
+			select {
+			case <-ch:
+			case <-fallback:
+			}
 		}
 		c.mined.Store(true)
 	}()
@@ -866,6 +899,8 @@ func (ev *c11Env) runViaWrite(in c11In, regAddr common.Address, logger *slog.Log
 		txHash string
 		mined  atomic.Bool
 		block  atomic.Uint64
+		nsent  atomic.Uint64          // transactions the node accepted
+		others = map[common.Hash]int{} // hash of an other transaction -> index into in.Others
 	)
 	mined.Store(in.Late)
 	evm := mockevm.NewMockEvm(1,
@@ -874,6 +909,14 @@ func (ev *c11Env) runViaWrite(in c11In, regAddr common.Address, logger *slog.Log
 		mockevm.WithSuggestGasPriceFunc(func(context.Context) (*big.Int, error) { return big.NewInt(2000000000), nil }),
 		mockevm.WithSuggestGasTipCapFunc(func(context.Context) (*big.Int, error) { return big.NewInt(1000000000), nil }),
 		mockevm.WithSendTransactionFunc(func(_ context.Context, tx *types.Transaction) error {
+			if d := tx.Data(); len(in.Others) > 0 && len(d) == len(c11OtherMarker)+1 && bytes.HasPrefix(d, c11OtherMarker) {
+				// one of the driver's other transactions: context, not part of the recorded trace
+				mu.Lock()
+				others[tx.Hash()] = int(d[len(c11OtherMarker)])
+				mu.Unlock()
+				nsent.Add(1)
+				return nil
+			}
 			e := c11Eff{K: "send", Data: hex.EncodeToString(tx.Data())}
 			if tx.To() != nil {
 				e.To = hex.EncodeToString(tx.To().Bytes())
@@ -887,17 +930,48 @@ func (ev *c11Env) runViaWrite(in c11In, regAddr common.Address, logger *slog.Log
 			if in.Send.Err != 0 {
 				return c11Error(in.Send.Err)
 			}
+			nsent.Add(1)
 			return nil
 		}),
 		mockevm.WithBlockNumFunc(func(context.Context) (uint64, error) { return block.Add(1), nil }),
 		mockevm.WithNonceAtFunc(func(context.Context, common.Address, *big.Int) (uint64, error) {
 			if mined.Load() && in.Wait.Kind != "never" {
-				return nonce + 1, nil
+				// the block holds every transaction sent so far (one without other transactions)
+				return nonce + nsent.Load(), nil
 			}
 			return nonce, nil
 		}),
 		mockevm.WithBatcherFunc(func(_ context.Context, elems []rpc.BatchElem) error {
+			// the order in which the node fills in its answers: the stake / prepay transaction
+			// first or last, the other transactions by their index in between
+			mu.Lock()
+			idx := make([]int, len(elems))
+			rank := make([]int, len(elems))
 			for i := range elems {
+				idx[i] = i
+				rank[i] = -1
+				if !in.StakeFirst {
+					rank[i] = len(in.Others)
+				}
+				if h, ok := elems[i].Args[0].(common.Hash); ok {
+					if k, isOther := others[h]; isOther {
+						rank[i] = k
+					}
+				}
+			}
+			mu.Unlock()
+			sort.SliceStable(idx, func(a, b int) bool { return rank[idx[a]] < rank[idx[b]] })
+			for _, i := range idx {
+				if k := rank[i]; k >= 0 && k < len(in.Others) {
+					if in.Others[k].Drop {
+						elems[i].Error = ethereum.NotFound
+						continue
+					}
+					r := elems[i].Result.(*types.Receipt)
+					r.Status = in.Others[k].Status
+					r.BlockNumber = big.NewInt(1)
+					continue
+				}
 				if in.Wait.Kind == "notfound" {
 					elems[i].Error = ethereum.NotFound
 					continue
@@ -916,6 +990,44 @@ func (ev *c11Env) runViaWrite(in c11In, regAddr common.Address, logger *slog.Log
 	defer real.Close()
 	cl := &c11ViaClient{EvmClient: real, late: in.Late, never: in.Wait.Kind == "never", mined: &mined,
 		settle: time.Duration(slow) * 150 * time.Millisecond, limit: time.Duration(slow) * 5 * time.Second}
+	// the other transactions: sent directly through the same client, each with a waiter of the
+	// driver's own (registered synchronously by EvmClient.WaitForReceipt, reported by the first
+	// evaluation of Done()), so that the monitor holds all of them when the block is mined
+	octx, ocancel := context.WithCancel(context.Background())
+	var owg sync.WaitGroup
+	defer owg.Wait()
+	defer ocancel()
+	sendOther := func(k int) <-chan struct{} {
+		to := ks.GetAddress()
+		h, err := real.Send(octx, &evmclient.TxRequest{To: &to, Value: big.NewInt(0),
+			CallData: append(append([]byte{}, c11OtherMarker...), byte(k))})
+		if err != nil {
+			panic("verif: other transaction refused: " + err.Error())
+		}
+		sctx := &c11SignalCtx{Context: octx, reached: make(chan struct{})}
+		owg.Add(1)
+		go func() {
+			defer owg.Done()
+			_, _ = real.WaitForReceipt(sctx, h)
+		}()
+		return sctx.reached
+	}
+	if len(in.Others) > 0 && !in.Late && in.Wait.Kind != "never" {
+		var signals []<-chan struct{}
+		for k, o := range in.Others {
+			if o.Before {
+				signals = append(signals, sendOther(k))
+			}
+		}
+		cl.others = func() []<-chan struct{} {
+			for k, o := range in.Others {
+				if !o.Before {
+					signals = append(signals, sendOther(k))
+				}
+			}
+			return signals
+		}
+	}
 	var r c11Registry
 	if in.Kind == 0 {
 		r = c11Prov{registrycontract.New(regAddr, cl, logger)}
@@ -1683,6 +1795,63 @@ func TestVerifC11(t *testing.T) {
 	for i := 0; i < e.N/20; i++ {
 		vw = append(vw, c11In{Kind: r.Intn(2), Op: "viawrite", Reg: c11RandHex(r, 20), Amount: str(c11RandValue(r)),
 			Wait: c11Wait{Kind: "receipt", Status: uint64(r.Intn(3))}, Late: r.Intn(2) == 0})
+	}
+	// X2. the same with OTHER transactions of the same client outstanding and mined in the same
+	//     block (one monitor check resolves all of them), their receipts differing from the
+	//     stake / prepay transaction's: before / after it in nonce order, 1 to 3 of them, the
+	//     node answering the stake / prepay transaction first or last.  The expected outcome is
+	//     that of the transaction's own receipt.
+	mkOthers := func(nBefore, nAfter int, st func() c11Other) []c11Other {
+		var os []c11Other
+		for i := 0; i < nBefore+nAfter; i++ {
+			o := st()
+			o.Before = i < nBefore
+			os = append(os, o)
+		}
+		return os
+	}
+	for kind := 0; kind < 2; kind++ {
+		for _, own := range []uint64{0, 1} {
+			for place := 0; place < 3; place++ {
+				for _, first := range []bool{true, false} {
+					nb, na := 0, 0
+					switch place {
+					case 0:
+						nb = 1 + r.Intn(3)
+					case 1:
+						na = 1 + r.Intn(3)
+					default:
+						nb = 1 + r.Intn(2)
+						na = 1 + r.Intn(3-nb)
+					}
+					vw = append(vw, c11In{Kind: kind, Op: "viawrite", Reg: c11RandHex(r, 20), Amount: str(c11RandValue(r)),
+						Wait: c11Wait{Kind: "receipt", Status: own}, StakeFirst: first,
+						Others: mkOthers(nb, na, func() c11Other { return c11Other{Status: 1 - own} })})
+				}
+			}
+		}
+		// the stake / prepay transaction dropped while the others succeed, and the other way round
+		vw = append(vw, c11In{Kind: kind, Op: "viawrite", Reg: c11RandHex(r, 20), Amount: str(c11RandValue(r)),
+			Wait: c11Wait{Kind: "notfound"}, StakeFirst: r.Intn(2) == 0,
+			Others: mkOthers(r.Intn(2), 1+r.Intn(2), func() c11Other { return c11Other{Status: 1} })})
+		vw = append(vw, c11In{Kind: kind, Op: "viawrite", Reg: c11RandHex(r, 20), Amount: str(c11RandValue(r)),
+			Wait: c11Wait{Kind: "receipt", Status: 1}, StakeFirst: r.Intn(2) == 0,
+			Others: mkOthers(1+r.Intn(2), r.Intn(2), func() c11Other { return c11Other{Drop: true} })})
+	}
+	for i := 0; i < e.N/10; i++ {
+		nb := r.Intn(3)
+		na := r.Intn(4 - nb)
+		if nb+na == 0 {
+			na = 1
+		}
+		vw = append(vw, c11In{Kind: r.Intn(2), Op: "viawrite", Reg: c11RandHex(r, 20), Amount: str(c11RandValue(r)),
+			Wait: c11Wait{Kind: "receipt", Status: uint64(r.Intn(3))}, StakeFirst: r.Intn(2) == 0,
+			Others: mkOthers(nb, na, func() c11Other {
+				if r.Intn(8) == 0 {
+					return c11Other{Drop: true}
+				}
+				return c11Other{Status: uint64(r.Intn(3))}
+			})})
 	}
 	vwObs := make([]c11Obs, len(vw))
 	var vwg sync.WaitGroup
